@@ -17,6 +17,7 @@ import (
 	"go/token"
 	"go/types"
 	"math/big"
+	"os"
 	"sort"
 	"strings"
 
@@ -92,6 +93,8 @@ type lenCtx struct {
 	upperAny         map[string]int64
 	lowerC           map[string]int64
 	inFits           bool
+	inInd            bool
+	defFacts         []lin // defining facts of division / shift atoms
 	strides          []lin
 	stridesDone      bool
 	depth            int
@@ -270,23 +273,9 @@ func (lc *lenCtx) linOf1(v ssa.Value) lin {
 			case len(b.t) == 0:
 				r = newLin(0).addScaled(a, b.c)
 			default:
-				// product of two single-atom forms: a canonical product atom (value numbering)
-				if len(a.t) == 1 && len(b.t) == 1 && a.c.Sign() == 0 && b.c.Sign() == 0 && !narrow {
-					var ka, kb string
-					var ca, cb *big.Rat
-					for k, c := range a.t {
-						ka, ca = k, c
-					}
-					for k, c := range b.t {
-						kb, cb = k, c
-					}
-					if lc.nonneg[ka] && lc.nonneg[kb] {
-						ks := []string{ka, kb}
-						sort.Strings(ks)
-						name := "prod:(" + ks[0] + ")*(" + ks[1] + ")"
-						lc.nonneg[name] = true
-						return lin{c: new(big.Rat), t: map[string]*big.Rat{name: new(big.Rat).Mul(ca, cb)}}
-					}
+				// bilinear expansion over canonical product atoms (value numbering of products)
+				if !narrow && len(a.t) <= 3 && len(b.t) <= 3 {
+					return lc.mulLin(a, b)
 				}
 				return lc.opaque(v)
 			}
@@ -312,6 +301,19 @@ func (lc *lenCtx) linOf1(v ssa.Value) lin {
 					if m, ok := constant.Int64Val(k.Value); ok && m > 0 && lc.isNonNeg(lc.linOf(x.X)) {
 						for n := range a.t {
 							lc.nonneg[n] = true
+						}
+						if x.Op == token.SHR {
+							if m < 32 {
+								m = int64(1) << uint(m)
+							} else {
+								m = 0
+							}
+						}
+						if m > 0 {
+							// q = ⌊X/m⌋ : m·q ≤ X ≤ m·q + m-1
+							X := lc.linOf(x.X)
+							mq := newLin(0).addScaled(a, big.NewRat(m, 1))
+							lc.defFacts = append(lc.defFacts, X.sub(mq), mq.plus(m-1).sub(X))
 						}
 					}
 				}
@@ -475,15 +477,26 @@ func (lc *lenCtx) fitsAt(at ssa.Instruction, r lin, bits int, uns bool) bool {
 }
 
 func (lc *lenCtx) isNonNeg(r lin) bool {
-	if r.c.Sign() < 0 {
-		return false
-	}
+	lo := new(big.Rat).Set(r.c)
 	for k, v := range r.t {
-		if v.Sign() < 0 || !lc.nonneg[k] {
+		switch {
+		case v.Sign() > 0 && lc.nonneg[k]:
+		case v.Sign() > 0 && lc.lower1[k]:
+			lo.Sub(lo, v)
+		case v.Sign() < 0:
+			u, ok := lc.upper[k]
+			if !ok {
+				u, ok = lc.upperAny[k]
+			}
+			if !ok {
+				return false
+			}
+			lo.Add(lo, new(big.Rat).Mul(v, big.NewRat(u, 1)))
+		default:
 			return false
 		}
 	}
-	return true
+	return lo.Sign() >= 0
 }
 
 // lenOf: the linear form of the length of a slice / string / array-pointer value.
@@ -550,6 +563,18 @@ func (lc *lenCtx) lenOf1(v ssa.Value) lin {
 		if strings.HasSuffix(n, ".Expand") && strings.Contains(n, "expander") {
 			args := x.Call.Args
 			return lc.linOf(args[len(args)-1])
+		}
+		if n == "(*math/big.Int).FillBytes" && len(x.Call.Args) == 2 {
+			return lc.lenOf(x.Call.Args[1]) // FillBytes returns its buffer argument
+		}
+		if r, guarded, ok := retLen(lc, &x.Call, 0, nil); ok && !guarded && x.Call.Signature().Results().Len() == 1 {
+			return r
+		}
+	case *ssa.Extract:
+		if call, ok := x.Tuple.(*ssa.Call); ok {
+			if r, guarded, ok := retLen(lc, &call.Call, x.Index, nil); ok && (!guarded || errGuarded(x)) {
+				return r
+			}
 		}
 	case *ssa.Phi:
 		// all edges the same length?
@@ -709,7 +734,195 @@ func (lc *lenCtx) prove(g lin, facts []lin) bool {
 		all = append(all, newLin(u).sub(atomLin(k)))
 	}
 	all = append(all, lc.strideFacts()...)
-	return lc.search(g, all, 4)
+	all = append(all, lc.defFacts...)
+	all = lc.withProducts(g, all)
+	// intervals of atoms from the single-atom facts; an empty interval means the facts are contradictory
+	// (the program point is unreachable) and an atom pinned to one value is substituted everywhere
+	for round := 0; round < 3; round++ {
+		lower, upperB := map[string]*big.Rat{}, map[string]*big.Rat{}
+		for _, f := range all {
+			if len(f.t) != 1 {
+				continue
+			}
+			for k, a := range f.t {
+				b := new(big.Rat).Quo(new(big.Rat).Neg(f.c), a) // a·x + c ≥ 0
+				if a.Sign() > 0 {                               // x ≥ -c/a
+					if o, ok := lower[k]; !ok || b.Cmp(o) > 0 {
+						lower[k] = b
+					}
+				} else if o, ok := upperB[k]; !ok || b.Cmp(o) < 0 {
+					upperB[k] = b
+				}
+			}
+		}
+		for k := range lc.nonneg {
+			if o, ok := lower[k]; !ok || o.Sign() < 0 {
+				lower[k] = new(big.Rat)
+			}
+		}
+		pinned := map[string]*big.Rat{}
+		for k, l := range lower {
+			if u, ok := upperB[k]; ok {
+				if c := l.Cmp(u); c > 0 {
+					return true
+				} else if c == 0 {
+					pinned[k] = l
+				}
+			}
+		}
+		if len(pinned) == 0 {
+			break
+		}
+		subst := func(f lin) lin {
+			r := lin{c: new(big.Rat).Set(f.c), t: map[string]*big.Rat{}}
+			for k, a := range f.t {
+				if pv, ok := pinned[k]; ok {
+					r.c.Add(r.c, new(big.Rat).Mul(a, pv))
+				} else {
+					r.t[k] = a
+				}
+			}
+			return r
+		}
+		g = subst(g)
+		var nf []lin
+		for _, f := range all {
+			sf := subst(f)
+			if len(sf.t) == 0 {
+				if sf.c.Sign() < 0 {
+					return true
+				}
+				continue
+			}
+			nf = append(nf, tighten(sf))
+		}
+		all = nf
+	}
+	if lc.search(g, all, 3) {
+		return true
+	}
+	if farkas(g, all, lc.nonneg) {
+		return true
+	}
+	// integer bound propagation (cuts the rational relaxation misses, e.g. 8q ≤ i ≤ 63 ⇒ q ≤ 7)
+	bf, contra := lc.intBounds(all)
+	if contra {
+		return true
+	}
+	if len(bf) == 0 {
+		return false
+	}
+	return farkas(g, append(all, bf...), lc.nonneg)
+}
+
+// intBounds propagates integer intervals of the atoms through the facts (all atoms are integers):
+// from Σ aᵢ·xᵢ + c ≥ 0 and bounds on the other atoms, xⱼ ≥ ⌈·⌉ or xⱼ ≤ ⌊·⌋. Returns the bounds as
+// facts, and whether some interval became empty (the facts are contradictory).
+func (lc *lenCtx) intBounds(facts []lin) ([]lin, bool) {
+	lo, hi := map[string]*big.Int{}, map[string]*big.Int{}
+	for k := range lc.nonneg {
+		lo[k] = new(big.Int)
+	}
+	floor := func(r *big.Rat) *big.Int { return new(big.Int).Div(r.Num(), r.Denom()) }
+	ceil := func(r *big.Rat) *big.Int {
+		n := new(big.Int).Neg(r.Num())
+		return n.Neg(n.Div(n, r.Denom()))
+	}
+	changedAny := false
+	for round := 0; round < 6; round++ {
+		changed := false
+		for _, f := range facts {
+			if len(f.t) == 0 || len(f.t) > 4 {
+				continue
+			}
+			for j, aj := range f.t {
+				// aj·xj ≥ -c - Σ_{i≠j} ai·xi ; bound the right side from above by the max of Σ ai·xi
+				rest := new(big.Rat).Set(f.c) // c + max Σ_{i≠j} ai·xi
+				ok := true
+				for i, ai := range f.t {
+					if i == j {
+						continue
+					}
+					var b *big.Int
+					if ai.Sign() > 0 {
+						b = hi[i]
+					} else {
+						b = lo[i]
+					}
+					if b == nil {
+						ok = false
+						break
+					}
+					rest.Add(rest, new(big.Rat).Mul(ai, new(big.Rat).SetInt(b)))
+				}
+				if !ok {
+					continue
+				}
+				// aj·xj + rest ≥ 0
+				q := new(big.Rat).Quo(new(big.Rat).Neg(rest), aj)
+				if aj.Sign() > 0 {
+					nb := ceil(q)
+					if o := lo[j]; o == nil || nb.Cmp(o) > 0 {
+						lo[j] = nb
+						changed = true
+					}
+				} else {
+					nb := floor(q)
+					if o := hi[j]; o == nil || nb.Cmp(o) < 0 {
+						hi[j] = nb
+						changed = true
+					}
+				}
+				if lo[j] != nil && hi[j] != nil && lo[j].Cmp(hi[j]) > 0 {
+					return nil, true
+				}
+			}
+		}
+		if !changed {
+			break
+		}
+		changedAny = true
+	}
+	if !changedAny {
+		return nil, false
+	}
+	var out []lin
+	for k, b := range lo {
+		if b.Sign() != 0 || !lc.nonneg[k] {
+			out = append(out, lin{c: new(big.Rat).SetInt(new(big.Int).Neg(b)), t: map[string]*big.Rat{k: big.NewRat(1, 1)}})
+		}
+	}
+	for k, b := range hi {
+		out = append(out, lin{c: new(big.Rat).SetInt(b), t: map[string]*big.Rat{k: big.NewRat(-1, 1)}})
+	}
+	return out, false
+}
+
+// tighten: all atoms are integers, so Σ aᵢ·xᵢ + c ≥ 0 with integer aᵢ of gcd d implies
+// Σ (aᵢ/d)·xᵢ + ⌊c/d⌋ ≥ 0.
+func tighten(f lin) lin {
+	if len(f.t) == 0 {
+		return f
+	}
+	d := new(big.Int)
+	for _, a := range f.t {
+		if !a.IsInt() {
+			return f
+		}
+		d.GCD(nil, nil, d, new(big.Int).Abs(a.Num()))
+	}
+	if d.Sign() == 0 || (d.Cmp(big.NewInt(1)) == 0 && f.c.IsInt()) {
+		return f
+	}
+	r := lin{c: new(big.Rat), t: map[string]*big.Rat{}}
+	for k, a := range f.t {
+		r.t[k] = new(big.Rat).SetInt(new(big.Int).Quo(a.Num(), d))
+	}
+	// floor(c/d)
+	q := new(big.Rat).Quo(f.c, new(big.Rat).SetInt(d))
+	fl := new(big.Int).Div(q.Num(), q.Denom()) // Euclidean division: floor for positive denominators
+	r.c.SetInt(fl)
+	return r
 }
 
 func (lc *lenCtx) badComponent(r lin) (string, bool) {
@@ -773,9 +986,17 @@ type boundsOp struct {
 	idx     ssa.Value // IndexAddr / Index
 	lo, hi  ssa.Value // Slice
 	isSlice bool
+	minLen  int64  // the base must have at least this length (array conversions, library preconditions)
+	lib     string // the library callee imposing minLen
 }
 
 func (o boundsOp) desc() string {
+	if o.minLen > 0 {
+		if o.lib != "" {
+			return fmt.Sprintf("%s(%s) needs %d bytes", o.lib, descVal(o.base), o.minLen)
+		}
+		return fmt.Sprintf("(*[%d]T)(%s)", o.minLen, descVal(o.base))
+	}
 	if o.isSlice {
 		return fmt.Sprintf("%s[%s:%s]", descVal(o.base), descVal(o.lo), descVal(o.hi))
 	}
@@ -786,6 +1007,9 @@ func (o boundsOp) desc() string {
 func (lc *lenCtx) goals(o boundsOp) []lin {
 	n := lc.lenOf(o.base)
 	var gs []lin
+	if o.minLen > 0 {
+		return []lin{n.plus(-o.minLen)}
+	}
 	if !o.isSlice {
 		i := lc.linOf(o.idx)
 		gs = append(gs, n.sub(i).plus(-1)) // i ≤ len-1
@@ -836,6 +1060,8 @@ type lenEngine struct {
 	iv   map[*ssa.Parameter][2]int64 // provided length interval of slice parameters (hi < 0: unbounded)
 	p    *Program
 	ctx  map[*ssa.Function]*lenCtx
+	t    *taint
+	bind map[*ssa.Function][]siteBinding
 	reqs map[*ssa.Parameter]int64 // minimal length required of a slice parameter
 	why  map[*ssa.Parameter]string
 }
@@ -923,15 +1149,34 @@ func (lc *lenCtx) condsAt(at ssa.Instruction) []intCond {
 
 func (e *lenEngine) decide(o boundsOp) (verdict string, par *ssa.Parameter, k int64, detail string) {
 	lc := e.ctxOf(o.f)
-	facts := append(lc.factsAt(o.in), e.paramFacts(o.f)...)
+	base := e.paramFacts(o.f)
+	facts := append(lc.factsAt(o.in), base...)
 	goals := lc.goals(o)
 	if lc.prove(newLin(-1), facts) {
 		return "local", nil, 0, "unreachable: the dominating conditions contradict the lengths provided by the callers"
 	}
+	if d := os.Getenv("DBGLEN"); d != "" && strings.Contains(fname(o.f), d) {
+		fmt.Printf("DBGLEN %s %s\n  iv:", e.p.pos(o.in.Pos()), o.desc())
+		for _, par := range o.f.Params {
+			if iv, ok := e.iv[par]; ok {
+				fmt.Printf(" %s=%v", par.Name(), iv)
+			}
+		}
+		fmt.Println()
+		for _, f := range facts {
+			fmt.Println("  fact", f.String())
+		}
+		for _, g := range goals {
+			fmt.Println("  goal", g.String(), lc.proveAt(g, o.in, base))
+		}
+		for _, b := range e.bindings(o.f) {
+			fmt.Printf("  binding ints=%v lens=%v\n", b.ints, b.lens)
+		}
+	}
 	allOK := true
 	var failing []lin
 	for _, g := range goals {
-		if !lc.prove(g, facts) {
+		if !lc.proveAt(g, o.in, base) {
 			allOK = false
 			failing = append(failing, g)
 		}
@@ -939,32 +1184,40 @@ func (e *lenEngine) decide(o boundsOp) (verdict string, par *ssa.Parameter, k in
 	if allOK {
 		return "local", nil, 0, fmt.Sprintf("%d goal(s) from %d fact(s)", len(goals), len(facts))
 	}
+	// per call site: every tainted call site binds the integer parameters to constants and/or provides
+	// exact slice lengths; the operation is proven under each binding separately
+	if bs := e.bindings(o.f); len(bs) > 0 {
+		okAll := true
+		for _, b := range bs {
+			blc := e.ctxWith(o.f, b.ints)
+			bbase := e.paramFactsIn(blc, o.f)
+			for par, n := range b.lens {
+				l := blc.lenOf(par)
+				bbase = append(bbase, l.plus(-n), newLin(n).sub(l))
+			}
+			if blc.prove(newLin(-1), append(blc.factsAt(o.in), bbase...)) {
+				continue
+			}
+			for _, g := range blc.goals(o) {
+				if !blc.proveAt(g, o.in, bbase) {
+					okAll = false
+					break
+				}
+			}
+			if !okAll {
+				break
+			}
+		}
+		if okAll {
+			return "local", nil, 0, fmt.Sprintf("proven separately under each of the %d call-site bindings of constant arguments and exact lengths", len(bs))
+		}
+	}
 	// try a constant length requirement on the root parameter of the base
 	rp := rootParam(o.base)
 	if rp != nil {
 		if _, ok := rp.Type().Underlying().(*types.Slice); ok || isStringType(rp.Type()) {
-			la := lc.lenOf(rp)
-			try := func(K int64) bool {
-				fs := append(append([]lin(nil), facts...), la.plus(-K))
-				for _, g := range failing {
-					if !lc.prove(g, fs) {
-						return false
-					}
-				}
-				return true
-			}
-			const maxK = 1 << 20
-			if try(maxK) {
-				lo, hi := int64(0), int64(maxK)
-				for lo < hi {
-					mid := (lo + hi) / 2
-					if try(mid) {
-						hi = mid
-					} else {
-						lo = mid + 1
-					}
-				}
-				return "requires", rp, lo, fmt.Sprintf("needs len(%s) ≥ %d", paramDesc(rp), lo)
+			if k, ok := lc.minLen(failing, o.in, base, lc.lenOf(rp)); ok {
+				return "requires", rp, k, fmt.Sprintf("needs len(%s) ≥ %d", paramDesc(rp), k)
 			}
 		}
 	}
@@ -1126,6 +1379,7 @@ func (e *lenEngine) boundsAt(lc *lenCtx, form lin, facts []lin) (lo, hi int64) {
 // intervals computes, top-down from the decoding entry points, the length interval every tainted
 // call site provides for each slice parameter of each tainted-reachable function.
 func (e *lenEngine) intervals(t *taint, entries []*ssa.Function) {
+	e.t = t
 	isEntry := map[*ssa.Function]bool{}
 	for _, f := range entries {
 		isEntry[f] = true
@@ -1339,4 +1593,572 @@ func (lc *lenCtx) forwarded(load *ssa.UnOp) ssa.Value {
 		return only.Val
 	}
 	return nil
+}
+
+// siteBinding: what one tainted call site fixes about its callee's parameters.
+type siteBinding struct {
+	ints []intCond
+	lens map[*ssa.Parameter]int64
+}
+
+// bindings of f: one per tainted call site (deduplicated); nil when f is an entry point, has no call
+// site, or has too many distinct bindings.
+func (e *lenEngine) bindings(f *ssa.Function) []siteBinding {
+	if bs, ok := e.bind[f]; ok {
+		return bs
+	}
+	if e.bind == nil {
+		e.bind = map[*ssa.Function][]siteBinding{}
+	}
+	e.bind[f] = nil
+	if e.t == nil {
+		return nil
+	}
+	node := e.p.CallGraph().Nodes[f]
+	if node == nil {
+		return nil
+	}
+	seen := map[string]bool{}
+	var out []siteBinding
+	for _, edge := range node.In {
+		caller := edge.Caller.Func
+		if !e.t.funcs[caller] || edge.Site == nil || caller == f {
+			continue
+		}
+		c0 := edge.Site.Common()
+		var args []ssa.Value
+		if c0.IsInvoke() {
+			args = append(args, c0.Value)
+		}
+		args = append(args, c0.Args...)
+		if len(args) != len(f.Params) {
+			return nil
+		}
+		lc := e.ctxOf(caller)
+		facts := append(lc.factsAt(edge.Site), e.paramFacts(caller)...)
+		b := siteBinding{lens: map[*ssa.Parameter]int64{}}
+		key := ""
+		for i, par := range f.Params {
+			if sliceLike(par.Type()) {
+				lo, hi := e.boundsAt(lc, lc.lenOf(args[i]), facts)
+				if hi >= 0 && lo == hi {
+					b.lens[par] = lo
+					key += fmt.Sprintf("|%d:len=%d", i, lo)
+				}
+			} else if _, _, ok := intWidth(par.Type()); ok {
+				r := lc.linOf(args[i])
+				if len(r.t) == 0 && r.c.IsInt() {
+					n := r.c.Num().Int64()
+					b.ints = append(b.ints, intCond{par, n})
+					key += fmt.Sprintf("|%d=%d", i, n)
+				}
+			}
+		}
+		if key == "" {
+			return nil // an unconstrained call site: the unbound analysis is all there is
+		}
+		if !seen[key] {
+			seen[key] = true
+			out = append(out, b)
+		}
+	}
+	if len(out) > 12 {
+		return nil
+	}
+	e.bind[f] = out
+	return out
+}
+
+// minLen: the smallest K such that the goals follow at `at` from the facts together with la ≥ K,
+// where the added fact does not contradict the others (a contradictory requirement proves nothing).
+func (lc *lenCtx) minLen(goals []lin, at ssa.Instruction, base []lin, la lin) (int64, bool) {
+	const maxK = int64(1) << 20
+	with := func(K int64) []lin { return append(append([]lin(nil), base...), la.plus(-K)) }
+	proves := func(K int64) bool {
+		b := with(K)
+		for _, g := range goals {
+			if !lc.proveAt(g, at, b) {
+				return false
+			}
+		}
+		return true
+	}
+	if !proves(maxK) {
+		return 0, false
+	}
+	lo, hi := int64(0), maxK
+	for lo < hi {
+		mid := (lo + hi) / 2
+		if proves(mid) {
+			hi = mid
+		} else {
+			lo = mid + 1
+		}
+	}
+	if lc.prove(newLin(-1), append(lc.factsAt(at), with(lo)...)) {
+		return 0, false
+	}
+	return lo, true
+}
+
+func prodName(ka, kb string) string {
+	ks := []string{ka, kb}
+	sort.Strings(ks)
+	return "prod:(" + ks[0] + ")*(" + ks[1] + ")"
+}
+
+// mulLin: the product of two forms, with one canonical atom per product of atoms.
+func (lc *lenCtx) mulLin(a, b lin) lin {
+	r := lin{c: new(big.Rat).Mul(a.c, b.c), t: map[string]*big.Rat{}}
+	add := func(k string, c *big.Rat) {
+		if c.Sign() == 0 {
+			return
+		}
+		if o, ok := r.t[k]; ok {
+			n := new(big.Rat).Add(o, c)
+			if n.Sign() == 0 {
+				delete(r.t, k)
+			} else {
+				r.t[k] = n
+			}
+		} else {
+			r.t[k] = new(big.Rat).Set(c)
+		}
+	}
+	for ka, ca := range a.t {
+		add(ka, new(big.Rat).Mul(ca, b.c))
+		for kb, cb := range b.t {
+			n := prodName(ka, kb)
+			if lc.nonneg[ka] && lc.nonneg[kb] {
+				lc.nonneg[n] = true
+			}
+			add(n, new(big.Rat).Mul(ca, cb))
+		}
+	}
+	for kb, cb := range b.t {
+		add(kb, new(big.Rat).Mul(cb, a.c))
+	}
+	return r
+}
+
+// withProducts: for every non-negative atom L that is a factor of a product atom of the goal, each
+// small fact f ≥ 0 also gives f·L ≥ 0.
+func (lc *lenCtx) withProducts(g lin, facts []lin) []lin {
+	factors := map[string]bool{}
+	for k := range g.t {
+		if !strings.HasPrefix(k, "prod:") {
+			continue
+		}
+		for f := range lc.nonneg {
+			if strings.HasPrefix(f, "prod:") {
+				continue
+			}
+			if strings.HasPrefix(k, "prod:("+f+")*(") || strings.HasSuffix(k, ")*("+f+")") {
+				factors[f] = true
+			}
+		}
+	}
+	if len(factors) == 0 {
+		return facts
+	}
+	out := facts
+	for L := range factors {
+		l := atomLin(L)
+		for _, f := range facts {
+			if len(f.t) == 0 || len(f.t) > 3 {
+				continue
+			}
+			prodFree := true
+			for k := range f.t {
+				if strings.HasPrefix(k, "prod:") {
+					prodFree = false
+				}
+			}
+			if prodFree {
+				out = append(out, lc.mulLin(f, l))
+			}
+		}
+	}
+	return out
+}
+
+// valueOfAtom: the SSA value an atom stands for (nil for synthetic atoms).
+func (lc *lenCtx) valueOfAtom(name string) ssa.Value {
+	for v, n := range lc.names {
+		if n == name {
+			return v
+		}
+	}
+	return nil
+}
+
+// proveAt: g ≥ 0 holds whenever control reaches `at`, from the facts that hold there plus the
+// position-independent base facts; falls back to induction over a loop counter occurring in g.
+func (lc *lenCtx) proveAt(g lin, at ssa.Instruction, base []lin) bool {
+	facts := append(lc.factsAt(at), base...)
+	if lc.prove(g, facts) {
+		return true
+	}
+	return lc.proveInd(g, base)
+}
+
+// proveInd: g is an invariant of the loop whose header phi a occurs in g: it holds for every
+// initial value (with the facts at the end of the entering block) and is preserved by every step
+// a := a ± c (with the facts at the step and g itself as hypothesis); the other atoms of g are
+// defined outside the loop.
+func (lc *lenCtx) proveInd(g lin, base []lin) bool {
+	if lc.inInd {
+		return false
+	}
+	lc.inInd = true
+	defer func() { lc.inInd = false }()
+	for a, coef := range g.t {
+		ph, ok := lc.valueOfAtom(a).(*ssa.Phi)
+		if !ok || !strings.HasPrefix(a, "v:") {
+			continue
+		}
+		bits, uns, okw := intWidth(ph.Type())
+		if !okw || bits != 64 {
+			continue
+		}
+		hdr := ph.Block()
+		invariant := true
+		for k := range g.t {
+			if k == a {
+				continue
+			}
+			v := lc.valueOfAtom(k)
+			switch x := v.(type) {
+			case *ssa.Parameter:
+			case ssa.Instruction:
+				if x.Block() == hdr || !x.Block().Dominates(hdr) {
+					invariant = false
+				}
+			default:
+				invariant = false
+			}
+		}
+		if !invariant {
+			continue
+		}
+		rest := g.clone()
+		delete(rest.t, a)
+		okAll := true
+		for i, e := range ph.Edges {
+			if bo, isB := e.(*ssa.BinOp); isB && (bo.Op == token.ADD || bo.Op == token.SUB) && bo.X == ssa.Value(ph) {
+				if k, isK := bo.Y.(*ssa.Const); isK && k.Value != nil {
+					if c, isI := constant.Int64Val(k.Value); isI {
+						if bo.Op == token.SUB {
+							c = -c
+						}
+						next := atomLin(a).plus(c)
+						facts := append(append(lc.factsAt(bo), base...), g)
+						if uns && c < 0 && !lc.prove(next, facts) {
+							okAll = false
+							break
+						}
+						if !lc.prove(rest.addScaled(next, coef), facts) {
+							okAll = false
+							break
+						}
+						continue
+					}
+				}
+			}
+			if i >= len(hdr.Preds) {
+				okAll = false
+				break
+			}
+			pred := hdr.Preds[i]
+			last := pred.Instrs[len(pred.Instrs)-1]
+			facts := append(lc.factsAt(last), base...)
+			// the branch of the entering block that leads to the header
+			if ifi, isIf := last.(*ssa.If); isIf {
+				if bo, isC := ifi.Cond.(*ssa.BinOp); isC && isCmp(bo.Op) && pred.Succs[0] != pred.Succs[1] {
+					facts = append(facts, lc.cmpFact(bo, pred.Succs[0] == hdr)...)
+				}
+			}
+			if !lc.prove(rest.addScaled(lc.linOf(e), coef), facts) {
+				okAll = false
+				break
+			}
+		}
+		if okAll {
+			return true
+		}
+	}
+	return false
+}
+
+// ---- return-length summaries ----
+
+// retEnv evaluates length expressions of a callee in terms of the caller's forms.
+type retEnv struct {
+	lc     *lenCtx // the caller's context: all atoms live here
+	callee *ssa.Function
+	args   []ssa.Value
+	parent *retEnv
+	depth  int
+}
+
+func (en *retEnv) paramIdx(p *ssa.Parameter) int {
+	for i, q := range en.callee.Params {
+		if q == p {
+			return i
+		}
+	}
+	return -1
+}
+
+func (en *retEnv) lenOf(v ssa.Value) (lin, bool) {
+	if pt, ok := v.Type().Underlying().(*types.Pointer); ok {
+		if at, ok := pt.Elem().Underlying().(*types.Array); ok {
+			return newLin(at.Len()), true
+		}
+	}
+	switch x := v.(type) {
+	case *ssa.Parameter:
+		i := en.paramIdx(x)
+		if i < 0 || i >= len(en.args) {
+			return lin{}, false
+		}
+		if en.parent != nil {
+			return en.parent.lenOf(en.args[i])
+		}
+		return en.lc.lenOf(en.args[i]), true
+	case *ssa.MakeSlice:
+		return en.intOf(x.Len)
+	case *ssa.Slice:
+		lo := newLin(0)
+		if x.Low != nil {
+			l, ok := en.intOf(x.Low)
+			if !ok {
+				return lin{}, false
+			}
+			lo = l
+		}
+		if x.High != nil {
+			h, ok := en.intOf(x.High)
+			if !ok {
+				return lin{}, false
+			}
+			return h.sub(lo), true
+		}
+		b, ok := en.lenOf(x.X)
+		if !ok {
+			return lin{}, false
+		}
+		return b.sub(lo), true
+	case *ssa.Const:
+		if x.Value == nil {
+			return newLin(0), true
+		}
+		if x.Value.Kind() == constant.String {
+			return newLin(int64(len(constant.StringVal(x.Value)))), true
+		}
+	case *ssa.Convert:
+		return en.lenOf(x.X)
+	case *ssa.ChangeType:
+		return en.lenOf(x.X)
+	case *ssa.Call:
+		if en.lc.p.staticCalleeName(&x.Call) == "(*math/big.Int).FillBytes" && len(x.Call.Args) == 2 {
+			return en.lenOf(x.Call.Args[1]) // FillBytes returns its buffer argument
+		}
+		if r, guarded, ok := retLen(en.lc, &x.Call, 0, en); ok && !guarded {
+			return r, true
+		}
+	}
+	return lin{}, false
+}
+
+func (en *retEnv) intOf(v ssa.Value) (lin, bool) {
+	bits, _, okw := intWidth(v.Type())
+	if !okw || bits != 64 {
+		return lin{}, false
+	}
+	switch x := v.(type) {
+	case *ssa.Const:
+		if x.Value != nil && x.Value.Kind() == constant.Int {
+			if n, ok := constant.Int64Val(x.Value); ok {
+				return newLin(n), true
+			}
+		}
+	case *ssa.Parameter:
+		i := en.paramIdx(x)
+		if i < 0 || i >= len(en.args) {
+			return lin{}, false
+		}
+		if en.parent != nil {
+			return en.parent.intOf(en.args[i])
+		}
+		return en.lc.linOf(en.args[i]), true
+	case *ssa.Call:
+		if b, ok := x.Call.Value.(*ssa.Builtin); ok && (b.Name() == "len" || b.Name() == "cap") && len(x.Call.Args) == 1 {
+			return en.lenOf(x.Call.Args[0])
+		}
+	case *ssa.BinOp:
+		switch x.Op {
+		case token.ADD, token.SUB:
+			a, ok1 := en.intOf(x.X)
+			b, ok2 := en.intOf(x.Y)
+			if !ok1 || !ok2 {
+				return lin{}, false
+			}
+			if x.Op == token.ADD {
+				return a.add(b), true
+			}
+			r := a.sub(b)
+			if _, uns, _ := intWidth(x.Type()); uns && !en.lc.isNonNeg(r) {
+				return lin{}, false
+			}
+			return r, true
+		case token.MUL:
+			a, ok1 := en.intOf(x.X)
+			b, ok2 := en.intOf(x.Y)
+			if ok1 && ok2 && (len(a.t) == 0 || len(b.t) == 0) {
+				return en.lc.mulLin(a, b), true
+			}
+		case token.QUO, token.SHR:
+			k, isK := x.Y.(*ssa.Const)
+			X, ok := en.intOf(x.X)
+			if !isK || k.Value == nil || !ok || !en.lc.isNonNeg(X) {
+				return lin{}, false
+			}
+			m, _ := constant.Int64Val(k.Value)
+			if x.Op == token.SHR {
+				if m < 0 || m >= 32 {
+					return lin{}, false
+				}
+				m = int64(1) << uint(m)
+			}
+			if m <= 0 {
+				return lin{}, false
+			}
+			// a canonical quotient atom of the caller: q = ⌊X/m⌋
+			name := fmt.Sprintf("div:(%s)/%d", X.String(), m)
+			q := atomLin(name)
+			if !en.lc.nonneg[name] {
+				en.lc.nonneg[name] = true
+				mq := newLin(0).addScaled(q, big.NewRat(m, 1))
+				en.lc.defFacts = append(en.lc.defFacts, X.sub(mq), mq.plus(m-1).sub(X))
+			}
+			return q, true
+		}
+	}
+	return lin{}, false
+}
+
+// retLen: the length of result idx of a statically resolved circl call, when every return of the
+// callee gives the same form over the caller's values. guarded: the form only holds for returns
+// whose error result is nil (the returns with a non-nil error were skipped).
+func retLen(lc *lenCtx, c *ssa.CallCommon, idx int, parent *retEnv) (r lin, guarded bool, ok bool) {
+	cal := c.StaticCallee()
+	if cal == nil || cal.Blocks == nil || !inlinable(cal) {
+		return lin{}, false, false
+	}
+	depth := 0
+	if parent != nil {
+		depth = parent.depth + 1
+	}
+	if depth > 3 || len(c.Args) != len(cal.Params) {
+		return lin{}, false, false
+	}
+	en := &retEnv{lc: lc, callee: cal, args: c.Args, parent: parent, depth: depth}
+	res := cal.Signature.Results()
+	errIdx := -1
+	for i := 0; i < res.Len(); i++ {
+		if isErrorType(res.At(i).Type()) {
+			errIdx = i
+		}
+	}
+	var first *lin
+	for _, b := range cal.Blocks {
+		ret, isRet := b.Instrs[len(b.Instrs)-1].(*ssa.Return)
+		if !isRet || idx >= len(ret.Results) {
+			continue
+		}
+		if errIdx >= 0 && errIdx != idx {
+			if k, isK := ret.Results[errIdx].(*ssa.Const); !isK || k.Value != nil {
+				guarded = true
+				continue
+			}
+		}
+		l, ok := en.lenOf(ret.Results[idx])
+		if !ok {
+			return lin{}, false, false
+		}
+		if first == nil {
+			first = &l
+		} else if first.String() != l.String() {
+			return lin{}, false, false
+		}
+	}
+	if first == nil {
+		return lin{}, false, false
+	}
+	return *first, guarded, true
+}
+
+// errGuarded: every use of the value result of a (value, error) call is dominated by the branch on
+// which that call's error result is nil.
+func errGuarded(ex *ssa.Extract) bool {
+	call, ok := ex.Tuple.(*ssa.Call)
+	if !ok {
+		return false
+	}
+	var errEx *ssa.Extract
+	for _, r := range *call.Referrers() {
+		if e, ok := r.(*ssa.Extract); ok && isErrorType(e.Type()) {
+			errEx = e
+		}
+	}
+	if errEx == nil {
+		return false
+	}
+	var okBlocks []*ssa.BasicBlock
+	for _, r := range *errEx.Referrers() {
+		bo, ok := r.(*ssa.BinOp)
+		if !ok || (bo.Op != token.EQL && bo.Op != token.NEQ) {
+			continue
+		}
+		other := bo.Y
+		if other == ssa.Value(errEx) {
+			other = bo.X
+		}
+		if k, ok := other.(*ssa.Const); !ok || k.Value != nil {
+			continue
+		}
+		for _, u := range *bo.Referrers() {
+			ifi, ok := u.(*ssa.If)
+			if !ok {
+				continue
+			}
+			succ := ifi.Block().Succs[0]
+			if bo.Op == token.NEQ {
+				succ = ifi.Block().Succs[1]
+			}
+			if len(succ.Preds) == 1 {
+				okBlocks = append(okBlocks, succ)
+			}
+		}
+	}
+	refs := ex.Referrers()
+	if refs == nil || len(okBlocks) == 0 {
+		return false
+	}
+	for _, r := range *refs {
+		if _, isDbg := r.(*ssa.DebugRef); isDbg {
+			continue
+		}
+		dom := false
+		for _, b := range okBlocks {
+			if b.Dominates(r.Block()) {
+				dom = true
+			}
+		}
+		if !dom {
+			return false
+		}
+	}
+	return true
 }
